@@ -4,7 +4,6 @@ import (
 	"bytes"
 	"fmt"
 	"strconv"
-	"unsafe"
 
 	"github.com/goccy/go-json/internal/errors"
 )
@@ -242,6 +241,46 @@ func compactString(dst, src []byte, cursor int64, escape bool) ([]byte, int64, e
 	}
 }
 
+// validNumberLiteral reports whether s is a number of RFC 8259:
+// [ minus ] int [ frac ] [ exp ], of any magnitude.
+func validNumberLiteral(s []byte) bool {
+	i, n := 0, len(s)
+	digits := func() bool {
+		start := i
+		for i < n && '0' <= s[i] && s[i] <= '9' {
+			i++
+		}
+		return i > start
+	}
+	if i < n && s[i] == '-' {
+		i++
+	}
+	if i >= n {
+		return false
+	}
+	if s[i] == '0' {
+		i++
+	} else if !digits() {
+		return false
+	}
+	if i < n && s[i] == '.' {
+		i++
+		if !digits() {
+			return false
+		}
+	}
+	if i < n && (s[i] == 'e' || s[i] == 'E') {
+		i++
+		if i < n && (s[i] == '+' || s[i] == '-') {
+			i++
+		}
+		if !digits() {
+			return false
+		}
+	}
+	return i == n
+}
+
 func compactNumber(dst, src []byte, cursor int64) ([]byte, int64, error) {
 	start := cursor
 	for {
@@ -252,8 +291,8 @@ func compactNumber(dst, src []byte, cursor int64) ([]byte, int64, error) {
 		break
 	}
 	num := src[start:cursor]
-	if _, err := strconv.ParseFloat(*(*string)(unsafe.Pointer(&num)), 64); err != nil {
-		return nil, 0, err
+	if !validNumberLiteral(num) {
+		return nil, 0, errors.ErrSyntax("strconv.ParseFloat: parsing "+strconv.Quote(string(num))+": invalid syntax", start)
 	}
 	dst = append(dst, num...)
 	return dst, cursor, nil
